@@ -269,6 +269,8 @@ type LoopAnn struct {
 	N      int
 	Inv    []Clause
 	Decr   *Clause
+	Hints  []Let    // "loop k: hint v = expr": instantiation terms evaluated at the loop head
+	Split  *Split   // "loop k: split E in lo..hi": one VC per value of E at the loop head
 	Mod    []Clause // "loop k: modifies ..." (locations the body may change; checked per iteration)
 	HasMod bool
 }
@@ -587,6 +589,37 @@ func (cs *ContractSet) parseFile(path, pkg string) error {
 					}
 					la.Kind = "invariant"
 					la.Inv = append(la.Inv, c)
+				case "hint":
+					t := strings.TrimSpace(rest[len("hint"):])
+					k := strings.Index(t, "=")
+					if k < 0 {
+						return fmt.Errorf("%s:%d: loop k: hint v = expr", path, it.line)
+					}
+					e, err := parseExpr(strings.TrimSpace(t[k+1:]))
+					if err != nil {
+						return fmt.Errorf("%s:%d: %v", path, it.line, err)
+					}
+					la.Hints = append(la.Hints, Let{strings.TrimSpace(t[:k]), e, t})
+				case "split":
+					t := strings.TrimSpace(rest[len("split"):])
+					k := strings.LastIndex(t, " in ")
+					if k < 0 {
+						return fmt.Errorf("%s:%d: loop k: split E in lo..hi", path, it.line)
+					}
+					e, err := parseExpr(strings.TrimSpace(t[:k]))
+					if err != nil {
+						return fmt.Errorf("%s:%d: %v", path, it.line, err)
+					}
+					r := strings.Split(strings.TrimSpace(t[k+4:]), "..")
+					if len(r) != 2 {
+						return fmt.Errorf("%s:%d: split range lo..hi", path, it.line)
+					}
+					lo, err1 := strconv.ParseInt(strings.TrimSpace(r[0]), 0, 64)
+					hi, err2 := strconv.ParseInt(strings.TrimSpace(r[1]), 0, 64)
+					if err1 != nil || err2 != nil {
+						return fmt.Errorf("%s:%d: bad split range", path, it.line)
+					}
+					la.Split = &Split{strings.TrimSpace(t[:k]), e, lo, hi}
 				case "modifies":
 					la.HasMod = true
 					text := strings.TrimSpace(rest[len("modifies"):])
